@@ -8,6 +8,7 @@ import (
 	"strings"
 
 	"github.com/juev/hledger-lsp/internal/include"
+	"github.com/juev/hledger-lsp/internal/parser"
 	"github.com/juev/hledger-lsp/internal/verifx/bfs"
 	"github.com/juev/hledger-lsp/internal/verifx/core"
 )
@@ -17,8 +18,13 @@ func init() { core.Register("C11", checkC11) }
 // c11World: graph g on N files; disk variant vector; variant 1 of file i toggles
 // the edge i -> (i+1)%N and changes the transaction description.
 type c11World struct {
-	G incGraph
+	G      incGraph
+	Broken int // 1-based index of a file whose variant 0 has a syntax error; 0 = none
 }
+
+// c11BrokenLine is an entry with a cost that lacks its number (checked at start-up
+// against the parser): the file that carries it has a parse diagnostic.
+const c11BrokenLine = "2001-01-09 broken\n    a:x  1 USD @\n"
 
 func (w c11World) content(dir string, i, variant int) string {
 	g := w.G
@@ -29,6 +35,8 @@ func (w c11World) content(dir string, i, variant int) string {
 	s := g.content(dir, "", i)
 	if variant == 1 {
 		s = strings.Replace(s, "tx of file", "edited tx of file", 1)
+	} else if w.Broken == i+1 {
+		s += c11BrokenLine
 	}
 	return s
 }
@@ -62,8 +70,9 @@ func c11Ops(n int) []c11Op {
 }
 
 type c11Case struct {
-	Graph incGraph `json:"graph"`
-	Ops   []c11Op  `json:"ops"`
+	Graph  incGraph `json:"graph"`
+	Broken int      `json:"broken_file_1based"`
+	Ops    []c11Op  `json:"ops"`
 }
 
 // loadObs renders a load result canonically.
@@ -191,7 +200,7 @@ func checkC11(c *core.Ctx) {
 			c.Res.InfraError = "bad replay: " + err.Error()
 			return
 		}
-		_, shared, fresh, _ := c11Apply(dir, c11World{cs.Graph}, cs.Ops)
+		_, shared, fresh, _ := c11Apply(dir, c11World{cs.Graph, cs.Broken}, cs.Ops)
 		c.Note("shared loader: %s", shared)
 		c.Note("fresh  loader: %s", fresh)
 		if shared != fresh {
@@ -203,11 +212,21 @@ func checkC11(c *core.Ctx) {
 	if c.Thorough() {
 		maxEdges, depth = 9, 7
 	}
+	broken := []int{0, 2}
+	if c.Thorough() {
+		broken = []int{0, 1, 2, 3}
+	}
+	if _, perrs := parser.Parse(c11BrokenLine); len(perrs) == 0 {
+		c.Res.InfraError = "the broken line of C11 no longer produces a parse diagnostic"
+		return
+	}
 	var worlds []c11World
 	for adj := uint32(0); adj < 1<<9; adj++ {
 		g := incGraph{N: 3, Adj: adj, DangleI: -1, DangleJ: -1, BigFile: -1}
 		if g.nedges() <= maxEdges {
-			worlds = append(worlds, c11World{g})
+			for _, br := range broken {
+				worlds = append(worlds, c11World{g, br})
+			}
 		}
 	}
 	// named 4-file shapes: chain, diamond, cycle through depth 2, star
@@ -227,9 +246,9 @@ func checkC11(c *core.Ctx) {
 		for _, e := range named[k] {
 			g.Adj |= 1 << uint(e[0]*4+e[1])
 		}
-		worlds = append(worlds, c11World{g})
+		worlds = append(worlds, c11World{g, 0}, c11World{g, 4})
 	}
-	c.Bound("worlds", fmt.Sprintf("%d include graphs (3 files, <= %d edges, plus chain4/diamond/cycle/star on 4 files), 2 content variants per file", len(worlds), maxEdges))
+	c.Bound("worlds", fmt.Sprintf("%d include graphs (3 files, <= %d edges, plus chain4/diamond/cycle/star on 4 files) x which file has a syntax error %v (1-based, 0 none; the edit removes it), 2 content variants per file", len(worlds), maxEdges, broken))
 	c.Bound("history depth", fmt.Sprint(depth))
 	sampled := 0
 	for _, w := range worlds {
@@ -257,8 +276,8 @@ func checkC11(c *core.Ctx) {
 					}
 					c.Violate(fmt.Sprintf("history-dependent load|%s|%s", strings.Join(kinds, ">"), c11DiffClass(shared, fresh)),
 						"load result independent of cache history",
-						fmt.Sprintf("history %v on graph %v\nshared loader: %s\nfresh loader:  %s", seq, w.G.edgeList(), shared, fresh),
-						c11Case{w.G, seq})
+						fmt.Sprintf("history %v on graph %v broken=%d\nshared loader: %s\nfresh loader:  %s", seq, w.G.edgeList(), w.Broken, shared, fresh),
+						c11Case{w.G, w.Broken, seq})
 				} else if sampled < 2 && hit && len(seq) >= 3 {
 					sampled++
 					c.Sample(map[string]any{"graph": w.G.edgeList(), "history": fmt.Sprint(seq), "result": shared})
